@@ -52,6 +52,16 @@ def observe(c):
         return []
     det = linalgfam.qval(c["det"])
     n = Dn.shape[0]
+    opsc = c.get("_scale")
+    if opsc is not None:
+        # the same dense operator times a power of ten: det(cA) = c^n det(A); slogdet must stay accurate although the
+        # determinant itself is tiny / huge
+        inner = t["a"][0] if t["k"] == "Annot" else t
+        As = cola.ops.Dense(np.asarray(build.build(inner).A) * opsc)
+        A = build.ANN[t["p"]["ann"]](As) if t["k"] == "Annot" else As
+        Dn, det = Dn * opsc, det * opsc**n
+        case = f"{opsc:g} * {case}"
+        at["op_scale"] = f"{opsc:g}"
     tdt = opsfam.tol_dt(c)
     single = tdt in ("f32", "c64")
     at["det_sign"] = "neg" if (det.imag == 0 and det.real < 0) else ("pos" if det.imag == 0 else "complex")
@@ -112,7 +122,7 @@ def observe(c):
             if abs(logabs.imag) > rtol:
                 V("logabs", f"{name}: logabs {logabs} is not real", **extra)
             got = sign * np.exp(logabs.real)
-            if abs(got - det) > rtol * max(1.0, abs(det)):
+            if abs(got - det) > rtol * max(1.0 if opsc is None else 0.0, abs(det)):
                 V("det", f"{name}: sign*exp(logabs) = {got:.6g} but det = {det:.6g} (sign {sign:.4g}, logabs "
                   f"{logabs.real:.6g}, exact log|det| {np.log(abs(det)):.6g})", **extra)
             elif abs(abs(sign) - 1) > rtol or (not cplx and abs(sign.imag) > rtol):
@@ -137,6 +147,10 @@ def run(tier):
         deep = [c for c in cases if c["lvl"] > 1]
         step = max(1, len(deep) // 3000)
         cases = [c for c in cases if c["lvl"] <= 1] + deep[common.seed() % step::step]
+    scaled = [dict(c, _scale=f) for c in cases
+              if (c["t"]["k"] == "Dense" or (c["t"]["k"] == "Annot" and c["t"]["a"][0]["k"] == "Dense"))
+              and opsfam.tol_dt(c) in ("f64", "c128") for f in (1e-9, 1e6)]
+    cases = cases + scaled
     res = common.pmap(observe, cases, chunksize=8)
     viol = [v for r in res for v in r]
     # large structured operators: factored determinants from BigDet.tla
